@@ -53,7 +53,9 @@ def average(a, axis=None, weights=None, returned=False, keepdims=False):
         scl = wgt.sum(axis=axis, dtype=result_dtype, keepdims=keepdims)
         from dask_array._ufunc import multiply
 
-        avg = multiply(a, wgt, dtype=result_dtype).sum(axis, keepdims=keepdims) / scl
+        # ``dtype=`` on the elemwise only casts the finished product; form it in
+        # ``result_dtype`` so narrow integer data times integer weights cannot wrap.
+        avg = multiply(a.astype(result_dtype), wgt, dtype=result_dtype).sum(axis, keepdims=keepdims) / scl
 
     if returned:
         if scl.shape != avg.shape:
